@@ -105,6 +105,18 @@ def selectN (local_ localDc n total : Nat) (dcs : Dcs) (choice : List Nat) : Res
   else if st.selected.length ≥ n then (.ok st.selected, st.dcs)
   else (.notEnough st.selected.length n, st.dcs)
 
+/-- Is `choice` a possible outcome of `choose_multiple(&mut rng, n)` over the data centres
+`select_n_nodes` iterates (all of them, minus the local one when enough nodes live outside it)?
+Vacuous when the random branch is not taken.  The driver refuses a recorded choice that is not
+(the recorder is a hook: this ties what it reports to the iterator of the model). -/
+def choiceValid (localDc n total : Nat) (dcs : Dcs) (choice : List Nat) : Bool :=
+  let localLen := match getDc dcs localDc with | some c => c.nodes.length | none => 0
+  let canSkip := decide (total - localLen ≥ n)
+  let numDcs := if canSkip then dcs.length - 1 else dcs.length
+  let filtered := (dcs.filter (fun p => !(canSkip && p.1 == localDc))).map (·.1)
+  decide (numDcs ≤ n) || (decide (choice.length = n) && choice.all (fun d => filtered.contains d) &&
+    choice.all (fun d => choice.count d == 1))
+
 /-- Round-robin over per-DC lists (the `Quorum` branch). -/
 def quorumLoop : Nat → List (List Nat) → List Nat → Nat → Res
   | 0, _, sel, majority => .notEnough sel.length majority
